@@ -23,7 +23,7 @@ struct Rng(u64);
 impl Rng { fn next(&mut self) -> u64 { self.0 ^= self.0 << 13; self.0 ^= self.0 >> 7; self.0 ^= self.0 << 17; self.0 } fn below(&mut self, n: u64) -> u64 { if n == 0 { 0 } else { self.next() % n } } }
 
 #[derive(Clone, Debug)]
-enum Op { Tick(u64, u64), Campaign(u64), Propose(u64), Read(u64), Deliver(u64), Drop(u64), Dup(u64), Cut(u64), Heal, DeliverAll, DeliverSide, CutLeader, Conf(u64, u64, u64) }
+enum Op { Tick(u64, u64), Campaign(u64), Propose(u64), Read(u64), Deliver(u64), Drop(u64), Dup(u64), Cut(u64), Heal, DeliverAll, DeliverSide, CutLeader, Conf(u64, u64, u64), ProposeQuiet(u64), Unreachable(u64, u64), StepQuiet(u64) }
 
 struct Node { n: RawNode<MemStorage>, s: MemStorage }
 struct World { nodes: Vec<Node>, net: Vec<Message>, cut: Option<u64>, reads: BTreeMap<Vec<u8>, (u64, u64)>, next_ctx: u64,
@@ -32,10 +32,10 @@ struct World { nodes: Vec<Node>, net: Vec<Message>, cut: Option<u64>, reads: BTr
 macro_rules! guard { ($what:expr, $e:expr) => { match std::panic::catch_unwind(std::panic::AssertUnwindSafe(|| $e)) { Ok(v) => v, Err(_) => return Some(format!("{} panicked", $what)) } } }
 
 impl World {
-    fn new(prop: &str, pre_vote: bool, check_quorum: bool) -> World {
+    fn new(prop: &str, pre_vote: bool, check_quorum: bool, batch: bool) -> World {
         let l = Logger::root(Discard, o!());
         let nodes = (1..=3u64).map(|id| { let s = MemStorage::new_with_conf_state((vec![1, 2, 3], vec![]));
-            let cfg = Config { id, election_tick: 10, heartbeat_tick: 1, max_size_per_msg: 1 << 20, max_inflight_msgs: 16, pre_vote, check_quorum, ..Default::default() };
+            let cfg = Config { id, election_tick: 10, heartbeat_tick: 1, max_size_per_msg: 1 << 20, max_inflight_msgs: 16, pre_vote, check_quorum, batch_append: batch, ..Default::default() };
             Node { n: RawNode::new(&cfg, s.clone(), &l).unwrap(), s } }).collect();
         World { nodes, net: vec![], cut: None, reads: BTreeMap::new(), next_ctx: 1, committed: BTreeMap::new(), prop: prop.to_string(), check_quorum, before: vec![(0, vec![1, 2, 3]); 3] }
     }
@@ -141,6 +141,10 @@ impl World {
             Op::Conf(i, kind, target) => { let i = (*i % 3) as usize;
                 let mut cc = ConfChange::default(); cc.set_change_type(match kind % 3 { 0 => ConfChangeType::RemoveNode, 1 => ConfChangeType::AddNode, _ => ConfChangeType::AddLearnerNode }); cc.node_id = 1 + target % 3;
                 let _ = guard!("propose_conf_change", self.nodes[i].n.propose_conf_change(vec![], cc)); self.drive(i) }
+            // several calls between two Ready rounds: nothing is driven here, the messages stay in the node's outbox
+            Op::ProposeQuiet(i) => { let i = (*i % 3) as usize; let d = vec![self.next_ctx as u8, 9]; self.next_ctx += 1; let _ = guard!("propose", self.nodes[i].n.propose(vec![], d)); None }
+            Op::Unreachable(i, j) => { let i = (*i % 3) as usize; guard!("report_unreachable", self.nodes[i].n.report_unreachable(1 + *j % 3)); None }
+            Op::StepQuiet(k) => { if self.net.is_empty() { return None; } let k = (*k % self.net.len() as u64) as usize; let m = self.net.remove(k); let to = m.to as usize; if to < 1 || to > 3 { return None; } let _ = guard!("step", self.nodes[to - 1].n.step(m)); None }
             Op::Cut(i) => { self.cut = Some(1 + *i % 3); None }
             Op::Heal => { self.cut = None; None }
             // everything except what is addressed to the partitioned node: those messages stay in flight (delayed)
@@ -151,7 +155,9 @@ impl World {
     }
 }
 fn run(prop: &str, pre_vote: bool, check_quorum: bool, ops: &[Op]) -> Option<String> {
-    let mut w = World::new(prop, pre_vote, check_quorum);
+    // batch_append on in the cases that also use the quiet ops (several calls between two Ready rounds)
+    let batch = ops.iter().any(|o| matches!(o, Op::ProposeQuiet(_)));
+    let mut w = World::new(prop, pre_vote, check_quorum, batch);
     let _ = w.check_quorum;
     for (k, op) in ops.iter().enumerate() {
         w.before = w.nodes.iter().map(|x| { let mut v: Vec<u64> = x.n.raft.prs().conf().voters().ids().iter().collect(); v.sort(); (x.n.raft.raft_log.committed, v) }).collect();
@@ -164,6 +170,8 @@ fn gen(rng: &mut Rng) -> (bool, bool, Vec<Op>) {
     let n = 10 + rng.below(60); let mut ops = vec![Op::Campaign(rng.below(3)), Op::DeliverAll];
     for _ in 0..n { ops.push(match rng.below(24) { 20 | 21 => Op::DeliverSide, 22 => Op::CutLeader, 23 => Op::Campaign(rng.below(3)), 0 | 1 => Op::Tick(rng.below(3), 1 + rng.below(12)), 2 => Op::Campaign(rng.below(3)), 3..=5 => Op::Propose(rng.below(3)), 6..=8 => Op::Read(rng.below(3)),
         9..=13 => Op::Deliver(rng.below(64)), 14 => Op::Drop(rng.below(64)), 15 => Op::Dup(rng.below(64)), 16 => Op::Cut(rng.below(3)), 17 => Op::Heal, _ => Op::DeliverAll }); }
+    // every third case makes several calls between two Ready rounds (proposals, unreachable reports, steps whose Ready is taken later); batch_append is on there
+    if rng.below(3) == 0 { let k = 2 + rng.below(8); for _ in 0..k { let at = 2 + rng.below(ops.len() as u64 - 1) as usize; ops.insert(at, match rng.below(4) { 0 | 1 => Op::ProposeQuiet(rng.below(3)), 2 => Op::Unreachable(rng.below(3), rng.below(3)), _ => Op::StepQuiet(rng.below(64)) }); } }
     // every other case also proposes membership changes (remove / re-add / demote one of the three nodes) on random nodes
     if rng.below(2) == 0 { let k = 1 + rng.below(4); for _ in 0..k { let at = 2 + rng.below(ops.len() as u64 - 1) as usize; ops.insert(at, Op::Conf(rng.below(3), rng.below(3), rng.below(3))); let at2 = (at + 1 + rng.below(4) as usize).min(ops.len()); ops.insert(at2, Op::DeliverAll); } }
     (rng.below(2) == 0, rng.below(2) == 0, ops)
